@@ -65,7 +65,7 @@ def staged_doc(prog, max_blocks=60, methods_too=False):
     preserves the program's behaviour, so a structural rule that holds on the staged view holds for the real program.
     Returns (doc, {stage: host}) or (None, {}) when there is nothing to splice."""
     import copy
-    from .inline import inline_mir
+    from .inline import inline_mir, thread_variant_joins
     from .sroa import scalarise
     prog.callgraph()
     base_fns = dict(prog.fns)
@@ -160,10 +160,16 @@ def staged_doc(prog, max_blocks=60, methods_too=False):
     if not stages:
         return None, {}
     hosts = sorted(set().union(*[hosts_of(k) for k in stages]))
+    local_enums = {a_["path"] for a_ in prog.doc.get("adts", []) if a_.get("kind") == "enum" and a_.get("loc")
+                   and any(v_.get("fields") for v_ in a_.get("variants", []))}     # (a variant with a payload: no explicit discriminants)
     doc = dict(prog.doc)
     fns = dict(prog.fns)
     for h in hosts:
         m, prom, inl = inline_mir(prog, h, stop=lambda g: g not in stages, maxdepth=6, desugar=False)      # plain splicing: the hosts keep their own spelling
+        try:
+            thread_variant_joins(m, local_enums)
+        except Exception:
+            pass
         try:
             scalarise(m, prog)
         except Exception:
